@@ -660,7 +660,7 @@ func c17DumpVal(v reflect.Value, b *strings.Builder) {
 			b.WriteString("F" + r.Num().String() + "/" + r.Denom().String())
 		}
 	case reflect.String:
-		b.WriteString(`"` + strings.ReplaceAll(v.String(), " ", "\\u0020") + `"`)
+		b.WriteString(`"` + strings.ReplaceAll(strings.ReplaceAll(v.String(), " ", "\\u0020"), "\n", "\\n") + `"`)
 	case reflect.Pointer:
 		if v.IsNil() {
 			b.WriteString("~p")
@@ -1878,6 +1878,40 @@ func c17GenSections(r *verifh.Rng) []verifh.Section {
 		}
 		secs = append(secs, verifh.Section{Cfg: "kind=load", Ops: ops})
 	}
+	// the config center over static types: every white-space variant x every block-scalar style x the three formats
+	ncc := verifh.Scale(12, 60)
+	for i := 0; i < ncc; i++ {
+		g := &c17Gen{r: r.Fork(), plain: true}
+		g.mode.dotLiteral = 15
+		tid := i % len(C17CCTypes)
+		pt := &c17Parser{s: C17CCTypes[tid]}
+		t := pt.ty()
+		ops := []string{"type " + C17CCTypes[tid]}
+		for q := 0; q < 10; q++ {
+			d := g.docFor(t, g.r.Pick(0, 0, 0, 10), false)
+			for d.kind != "obj" {
+				d = g.docFor(t, 0, false)
+			}
+			// the cert key is added by the op
+			for k := 0; k < len(d.keys); k++ {
+				if strings.EqualFold(d.keys[k], "cert") {
+					d.keys = append(d.keys[:k], d.keys[k+1:]...)
+					d.vals = append(d.vals[:k], d.vals[k+1:]...)
+					k--
+				}
+			}
+			blk := (i + q) % 6
+			ws := (i/2 + 2*q + q/5) % 5
+			if blk == 3 {
+				ws %= 2
+			}
+			if q == 9 {
+				ws, blk = 5, 0
+			}
+			ops = append(ops, fmt.Sprintf("cc %d %d %d %d %s", tid, ws, blk, g.r.Intn(32), d.enc()))
+		}
+		secs = append(secs, verifh.Section{Cfg: "kind=cc", Ops: ops})
+	}
 	secs = append(secs, c17RegressionSections()...)
 	secs = append(secs, verifh.Section{Cfg: "kind=f32", Ops: []string{"f32 16777217.0000000005", "f32 33554435.000000001",
 		"f32 1.5", "f32 16777217", "f32 0.1", "f32 340282350000000000000000000000000000000",
@@ -1999,6 +2033,58 @@ func c17DecodePar(rt reflect.Type, f func(ptr any) error) (out string) {
 	b.WriteString("ok:")
 	c17DumpVal(ptr.Elem(), &b)
 	return b.String()
+}
+
+// C17ConfigCenter is set by the external test package (zz_verif_c17_cc_test.go): NewConfigCenter[T](Config{Type: typ},
+// subscriber serving data).GetConfig() for the static type number tid.
+var C17ConfigCenter func(tid int, typ, data string) (any, error)
+
+// C17CCTypes: the type tokens of the static types of zz_verif_c17_cc_test.go (same fields, tags, order).
+var C17CCTypes = []string{
+	"{Name:name:-=s;Port:port:-=i;Tags:tags:o=@s;Cert:cert:o=s}",
+	"{Host:host:-=s;Meta:meta:o=%i;Inner:inner:-={Ratio:ratio:-=f64;Debug:debug:o=b};Cert:cert:o=s}",
+}
+
+// c17White: renderings of one text that differ in insignificant white space only.
+//
+//	0 as it is, 1 blank lines in front, 2 blank lines behind, 3 both, 4 every line indented alike (+ both)
+func c17White(ws int, text string) string {
+	if !strings.HasSuffix(text, "\n") {
+		text += "\n"
+	}
+	switch ws {
+	case 1:
+		return "\n\n" + text
+	case 2:
+		return text + "\n\n"
+	case 3:
+		return "\n" + text + "\n\n"
+	case 4:
+		lines := strings.Split(strings.TrimSuffix(text, "\n"), "\n")
+		for i := range lines {
+			lines[i] = "  " + lines[i]
+		}
+		return "\n" + strings.Join(lines, "\n") + "\n\n"
+	}
+	return text
+}
+
+// c17BlockScalar: the YAML lines of a last key `cert` in block style blk (1 `|`, 2 `|-`, 3 `|+`, 4 `>`) and the value every
+// format must decode; 5 = a double-quoted string with \n escapes in all three formats.
+func c17BlockScalar(blk int) (yamlLines string, escaped string) {
+	switch blk {
+	case 1:
+		return "\"cert\": |\n  l1\n  l2\n", `l1\nl2\n`
+	case 2:
+		return "\"cert\": |-\n  l1\n  l2\n", `l1\nl2`
+	case 3:
+		return "\"cert\": |+\n  l1\n  l2\n", `l1\nl2\n`
+	case 4:
+		return "\"cert\": >\n  l1\n  l2\n", `l1\u0020l2\n`
+	case 5:
+		return "\"cert\": \"l1\\nl2\\n\"\n", `l1\nl2\n`
+	}
+	return "", ""
 }
 
 var c17ReaderModes = []string{"plain", "onebyte", "zero", "cut", "short", "errfirst", "tail", "panic", "panicstr", "goexit"}
@@ -2440,6 +2526,79 @@ func c17NewStep(t *testing.T) func(op []string) string {
 				return "bad-op"
 			}
 			return c17Decode(rt, func(v any) error { return load(file, v, opts...) }) + " " + c17AliasTok()
+		case "cc":
+			// cc <tid> <ws> <blk> <style> <doc>: the document (+ a last key cert in block style blk) rendered in the three
+			// formats with white-space variant ws; every rendering through the format's loader (L?) and through the config
+			// center with Type json / yaml / toml (C?) on THE SAME BYTES.  ws 5: an empty value.
+			if len(op) != 6 {
+				return "bad-op"
+			}
+			tid, ws, blk, style := verifh.Atoi(op[1]), verifh.Atoi(op[2]), verifh.Atoi(op[3]), verifh.Atoi(op[4])
+			if rt == nil {
+				return "no-type"
+			}
+			if tid < 0 || tid >= len(C17CCTypes) || typeOp != "type "+C17CCTypes[tid] || ws < 0 || ws > 5 || blk < 0 || blk > 5 ||
+				(blk == 3 && ws != 0 && ws != 1) {
+				return "bad-op"
+			}
+			p := &c17Parser{s: op[5]}
+			d := p.doc()
+			if p.i != len(p.s) || d.kind != "obj" {
+				return "bad-op"
+			}
+			for _, k := range d.keys {
+				if strings.EqualFold(k, "cert") {
+					return "bad-op"
+				}
+			}
+			yamlLines, escaped := c17BlockScalar(blk)
+			ystyle := style
+			if blk != 0 {
+				ystyle |= 1
+			}
+			ys := ""
+			if len(d.keys) > 0 || blk == 0 {
+				ys = d.renderYAML(ystyle)
+			}
+			ys += yamlLines
+			if blk != 0 {
+				d.keys = append(d.keys, "cert")
+				d.vals = append(d.vals, &c17Doc{kind: "str", lit: escaped})
+			}
+			js := d.renderJSON(style)
+			ts, tok := d.renderTOML(style)
+			if ws == 5 {
+				js, ys, ts = "", "", ""
+			} else {
+				js, ys, ts = c17White(ws, js), c17White(ws, ys), c17White(ws, ts)
+			}
+			center := func(typ, data string) string {
+				if style&1 != 0 {
+					typ = strings.ToUpper(typ) // NewConfigCenter lower-cases the type
+				}
+				return c17Decode(rt, func(v any) error {
+					val, err := C17ConfigCenter(tid, typ, data)
+					if err != nil {
+						return err
+					}
+					reflect.ValueOf(v).Elem().Set(reflect.ValueOf(val).Convert(rt))
+					return nil
+				})
+			}
+			out := []string{
+				"LJ=" + c17Decode(rt, func(v any) error { return LoadFromJsonBytes([]byte(js), v) }),
+				"CJ=" + center("json", js),
+				"LY=" + c17Decode(rt, func(v any) error { return LoadFromYamlBytes([]byte(ys), v) }),
+				"CY=" + center("yaml", ys),
+			}
+			if tok {
+				out = append(out, "LT="+c17Decode(rt, func(v any) error { return LoadFromTomlBytes([]byte(ts), v) }), "CT="+center("toml", ts))
+			} else {
+				out = append(out, "LT=skip", "CT=skip")
+			}
+			out = append(out, "CX="+center("ini", js), c17AliasTok())
+			return strings.Join(out, " ")
+
 		case "cload":
 			if len(op) != 3 {
 				return "bad-op"
